@@ -19,7 +19,6 @@ pub use iter::*;
 pub struct PrefixMap<P, T> {
     pub(crate) table: Table<P, T>,
     free: Vec<usize>,
-    count: usize,
 }
 
 impl<P, T> Default for PrefixMap<P, T>
@@ -30,7 +29,6 @@ where
         Self {
             table: Default::default(),
             free: Vec::new(),
-            count: 0,
         }
     }
 }
@@ -47,13 +45,13 @@ where
     /// Returns the number of elements stored in `self`.
     #[inline(always)]
     pub fn len(&self) -> usize {
-        self.count
+        self.table.count()
     }
 
     /// Returns `true` if the map contains no elements.
     #[inline(always)]
     pub fn is_empty(&self) -> bool {
-        self.count == 0
+        self.table.count() == 0
     }
 
     /// Get the value of an element by matching exactly on the prefix.
@@ -361,7 +359,7 @@ where
                         inc = 1;
                     }
                     node.value = Some(value);
-                    self.count += inc;
+                    *self.table.count_mut() += inc;
                     return old_value;
                 }
                 DirectionForInsert::NewLeaf { right } => {
@@ -515,7 +513,7 @@ where
 
         // decrease the count if the value is something
         if value.is_some() {
-            self.count -= 1;
+            *self.table.count_mut() -= 1;
         }
 
         value
@@ -595,7 +593,7 @@ where
             left: None,
             right: None,
         });
-        self.count = 0;
+        *self.table.count_mut() = 0;
     }
 
     /// Keep only the elements in the map that satisfy the given condition `f`.
@@ -772,7 +770,7 @@ where
                 to_free.push(right)
             }
             self.free.push(idx);
-            self.count -= dec;
+            *self.table.count_mut() -= dec;
         }
     }
 
@@ -781,7 +779,7 @@ where
     #[inline(always)]
     fn new_node(&mut self, prefix: P, value: Option<T>) -> usize {
         if value.is_some() {
-            self.count += 1;
+            *self.table.count_mut() += 1;
         }
         if let Some(idx) = self.free.pop() {
             let node = &mut self.table[idx];
@@ -821,7 +819,7 @@ where
 
         // decrease the number of elements if value is something
         if value.is_some() {
-            self.count -= 1;
+            *self.table.count_mut() -= 1;
         }
 
         if has_left && has_right {
